@@ -154,7 +154,7 @@ fn hdr(w: &[&str]) -> String {
     let version: u16 = w[2].parse().expect("version");
     let payload_size: u32 = w[3].parse().expect("psize");
     let payload_hash = opt_hash(w[4]);
-    let seq_num: u64 = w[5].parse().expect("seq");
+    let seq_num: u32 = w[5].parse().expect("seq");
     let backlink = opt_hash(w[6]);
     let verifying_key = tok::key(k).verifying_key();
     macro_rules! build {
